@@ -598,7 +598,24 @@ def check_buffer_discipline(run):
         g = seq[0][2]
         cap_ = [v for v in facts.vars if v["qn"] == "CDNS::CdnsEncoder::BUFFER_SIZE" and isinstance((v.get("init") or {}).get("cv"), int)]
         capv = cap_[0]["init"]["cv"] if cap_ else 2048
-        verdicts = [ir.eval_formula(g, {"this.m_buffer": 4096, "this.m_p": 4096 + k_, "this.m_avail": capv - k_}) for k_ in (1, 2, capv - 1, capv)]
+        def state(k_):
+            """valuation for k_ staged bytes: the members, and every atom of the guard that is arithmetic over them"""
+            import re as _re
+            val = {"this.m_buffer": 4096, "this.m_p": 4096 + k_, "this.m_avail": capv - k_}
+            for a_ in ir.walk_formula(g):
+                for key_ in ([a_[1]] if a_[0] == "nz" else list(a_[2:4]) if a_[0] == "cmp" else []):
+                    if not isinstance(key_, str) or key_ in val:
+                        continue
+                    txt = _re.sub(r"\((?:const )?(?:unsigned |signed )?(?:long long|long|int|short|char|std::size_t|size_t|std::ptrdiff_t|ptrdiff_t)\)", "", key_)
+                    for nm_, v_ in (("this.m_buffer", 4096), ("this.m_p", 4096 + k_), ("this.m_avail", capv - k_), ("g:CDNS::CdnsEncoder::BUFFER_SIZE", capv)):
+                        txt = txt.replace(nm_, str(v_))
+                    if _re.fullmatch(r"[0-9+\-*() ]+", txt):
+                        try:
+                            val[key_] = int(eval(txt, {"__builtins__": {}}, {}))
+                        except Exception:
+                            pass
+            return val
+        verdicts = [ir.eval_formula(g, state(k_)) for k_ in (1, 2, capv - 1, capv)]
         okg = False if any(v is False for v in verdicts) else (True if all(v is True for v in verdicts) else None)
         run.ob("R06.4", "flush_buffer:whenever-staged", okg, fb, fb["line"],
                "the write and the reset happen in every state with staged bytes (guard %s)" % show_f(g) if okg else
